@@ -82,7 +82,10 @@ Step(op, w, d, auth) ==
     d   |-> d,                                                          \* expected deliveries (exact: EXT)
     aw  |-> [t \in Tr |-> AllowedCls(t)],                               \* allowed by C14
     rw  |-> [t \in Tr |-> EgressRule(t)],
-    ad  |-> IF auth = "none" THEN FALSE ELSE DeliverAllowed(auth) ]     \* allowed by C14
+    ad  |-> IF auth = "none" THEN FALSE ELSE DeliverAllowed(auth),      \* allowed by C14
+    \* is the exact expectation meaningful?  (a protected packet taken as plain RTP/RTCP by a
+    \* transport without session and without the SRTP requirement parses or not: unspecified)
+    dx  |-> ~(auth \in {"valid", "forged"} /\ gen["X"] = 0 /\ ~req["X"]) ]
 
 Emit(op, w, d, auth) ==
   /\ wire' = wire \o w
